@@ -420,3 +420,17 @@ Proof.
   pose proof HR1 as [Ht1' Hcc _ _ _]. unfold cap in *. cbn [arr with_arr_top].
   split; intros i Hi; rd_norm; cases_if; try lia; reflexivity.
 Qed.
+
+(* reads outside the list give nil; the boundary indices are outside *)
+Lemma get_outside_nil_lemma : forall (l : list cell) idx,
+  validIdx (len l) idx = false -> L_get l idx = cNil.
+Proof. intros l idx H. unfold L_get. now rewrite H. Qed.
+
+Lemma boundary_invalid_lemma : forall n, 0 <= n ->
+  validIdx n 0 = false /\ validIdx n (n + 1) = false /\ validIdx n (- (n + 1)) = false /\
+  (forall k, n < k -> validIdx n k = false /\ validIdx n (- k) = false) /\
+  (forall k, 1 <= k <= n -> validIdx n k = true /\ validIdx n (- k) = true /\
+                            absIndex n (- k) = n - k + 1).
+Proof.
+  intros n Hn. unfold validIdx, absIndex. repeat split; intros; cases_if; lia.
+Qed.
